@@ -301,7 +301,7 @@ def run(f, fixture, rep, cfg, tier):
 
     # ---- R6 the bytes written for a file are the archived bytes: rests on the payload reader's accounting (C07.R4) ----------
     rep.rule("R6", "the payload reader hands extract() each file's exact bytes (C07.R4)")
-    rep.include("c07", f, fixture, cfg, tier, "R6", "payload reader accounting and read limit", only_rules={"R4"}, floor=3)
+    rep.include("c07", f, fixture, cfg, tier, "R6", "payload reader accounting and read limit; stripped (large-file) entry header shared by writer and reader", only_rules={"R4", "R3"}, floor=5)
 
     # ---- R7 mode and link target used by extract() are the header's: rests on the file-entry accessor (C05.R6) ----------------
     rep.rule("R7", "extract() is given each file's stored mode and link target (C05.R6)")
